@@ -14,6 +14,7 @@ use crate::{
     primitive::FiniteF64,
     provider::TimeZoneProvider,
     rounding::{IncrementRounder, Round},
+    time::EpochNanoseconds,
     TemporalError, TemporalResult, TemporalUnwrap, NS_PER_DAY,
 };
 
@@ -560,7 +561,10 @@ impl NormalizedDurationRecord {
         } else {
             // a. Let startEpochNs be GetUTCEpochNanoseconds(start.[[Year]], start.[[Month]], start.[[Day]], start.[[Hour]], start.[[Minute]], start.[[Second]], start.[[Millisecond]], start.[[Microsecond]], start.[[Nanosecond]]).
             // b. Let endEpochNs be GetUTCEpochNanoseconds(end.[[Year]], end.[[Month]], end.[[Day]], end.[[Hour]], end.[[Minute]], end.[[Second]], end.[[Millisecond]], end.[[Microsecond]], end.[[Nanosecond]]).
-            (start.as_nanoseconds()?, end.as_nanoseconds()?)
+            (
+                EpochNanoseconds(start.as_unchecked_nanoseconds()),
+                EpochNanoseconds(end.as_unchecked_nanoseconds()),
+            )
         };
 
         // 9. If endEpochNs = startEpochNs, throw a RangeError exception.
@@ -943,7 +947,7 @@ impl NormalizedDurationRecord {
             } else {
                 // 1. Let endEpochNs be GetUTCEpochNanoseconds(end.[[Year]], end.[[Month]], end.[[Day]], end.[[Hour]],
                 // end.[[Minute]], end.[[Second]], end.[[Millisecond]], end.[[Microsecond]], end.[[Nanosecond]]).
-                end.as_nanoseconds()?
+                EpochNanoseconds(end.as_unchecked_nanoseconds())
             };
             // viii. Let beyondEnd be nudgedEpochNs - endEpochNs.
             let beyond_end = nudge_epoch_ns - end_epoch_ns.0;
